@@ -255,6 +255,18 @@ def check(run):
                             required=[T + '::close', T + '::packet_dropped', T + '::incoming_packet'])
     engines.r2_writer_table(run, T + '::m_queue_size', {T + '::socket': 'move construction', T + '::close': 'the connection ends', T + '::read_some_impl': 'bytes handed to the reader'},
                             required=[T + '::close'])
+    run.clause('a read that delivers nothing leaves the parked read alone: read_some_impl takes the caller\'s buffers into m_recv_buffer only on paths that no longer reach a would_block outcome')
+    rs_ = fx.fn1(T + '::read_some_impl')
+    run.touch(rs_)
+    wb_ = [n_ for n_ in rs_.all_nodes() if n_['k'] in ('assign', 'binop', 'opcall', 'call') and 'would_block' in q.render(rs_, n_) and q.render(rs_, n_).replace(' ', '').lstrip('(').startswith('ec=')]
+    if not wb_:
+        run.broke('read_some_impl: no `ec = would_block` outcome found (the nothing-to-deliver idiom changed)')
+    for a_ in [a_ for a_ in q.field_accesses(rs_, {T + '::m_recv_buffer'}) if a_.kind in ('assign', 'move', 'compound') or (a_.kind == 'method' and (a_.method or '') in ('assign', 'swap', 'clear', 'push_back', 'emplace_back', 'insert'))]:
+        ba_ = rs_.cfg.node_block(a_.site)
+        late = [w_ for w_ in wb_ if q.precedes(rs_, a_.site, w_) or (rs_.cfg.node_block(w_) != ba_ and rs_.cfg._reaches(ba_, rs_.cfg.node_block(w_)))]
+        run.check(not late, 'R4', 'nothing-delivered-keeps-parked-read', T + '::read_some_impl: ' + q.render(rs_, a_.site)[:40], rs_.loc(a_.site),
+                  'm_recv_buffer is overwritten on a path that can still end in would_block (line %d): a non-blocking read_some() that finds nothing replaces the buffers of the async_read_some parked on the same socket - the next segment is copied into the poller\'s buffer while the parked handler is told the bytes are in its own' % (late[0]['l'] if late else 0),
+                  'written only after the last would_block outcome')
     run.clause('scatter reads fill each user buffer from its start: the offset into the current buffer is re-assigned whenever the buffer cursor is stepped')
     npair = engines.cursor_offset_pairs(run, [f for f in fx.repo_functions() if q.top_function(fx, f).cls == T])
     if npair < 1:
